@@ -83,13 +83,17 @@ class MPTask(ac.Task):
         return "%d,%d,%s|%s" % (self.pool, self.send, otok(self.opts), self.behtok())
 
 
-def script_line(pools, tasks, horizon):
-    return "antsmp H=%d %d %s %s" % (horizon, len(pools), " ".join(p.tok() for p in pools), " ".join(t.tok() for t in tasks))
+def script_line(pools, tasks, horizon, gcs=()):
+    """gcs: virtual instants at which the harness forces runtime.GC() twice while the script goes on"""
+    return "antsmp H=%d %s%d %s %s" % (horizon, "gc=%s " % ",".join(str(g) for g in gcs) if gcs else "", len(pools),
+                                      " ".join(p.tok() for p in pools), " ".join(t.tok() for t in tasks))
 
 
 def parse_script(line):
     t = line.split()
     assert t[0] == "antsmp" and t[1].startswith("H=")
+    if t[2].startswith("gc="):
+        t = t[:2] + t[3:]
     np_ = int(t[2])
     pools = []
     for tok in t[3:3 + np_]:
@@ -175,13 +179,24 @@ def gen_script(rng, style):
         T = rng.choice([1, 1, 2, 3]) * MS + 16 * rng.below(200) + 2
         R = rng.choice([1, 1, 1, 2, 2, 3, 4])
         behs = [ac.gen_beh(rng, T, "prompt" if style == "prompt" else "mixed") for _ in range(R)]
+        # error identity: a handler returns, as its OWN ordinary error, an error the pool uses itself: 101 = the discard
+        # error it got from a Send another (busy) pool rejected, 102 = context.DeadlineExceeded, 103 = context.Canceled,
+        # 104 = a wrapped discard error -- an attempt failing with it is an ordinary failed attempt (retried while a < R)
+        behs = [(d, h, v, rng.choice([101, 101, 102, 103, 104])) if (e != 0 and rng.chance(1, 3)) or (e == 0 and R > 1 and rng.chance(1, 10)) else (d, h, v, e)
+                for (d, h, v, e) in behs]
         default_T = rng.chance(1, 8)
         discard = rng.chance(1, 2)
         onerr = rng.chance(2, 3)
         opts = gen_task_opts(rng, T, R, discard, onerr, default_T)
         tasks.append(MPTask(p, now, opts, behs))
         now += jitter(rng.choice([16, 16, 32, 48, T // 4, T // 2, T, 2 * T])) or 16
-    return pools, tasks, horizon_of(pools, tasks)
+    # forced garbage collections in the middle of the script (every pool stays referenced and is used afterwards):
+    # instants = 4 mod 16, distinct from every send (0 mod 16) and NewPool (8 mod 16)
+    gcs = []
+    if rng.chance(1, 2):
+        lo, hi = pools[0].create, tasks[-1].send + 2 * MS
+        gcs = sorted({jitter(rng.range(lo, hi)) + 4 for _ in range(rng.range(1, 2))})
+    return pools, tasks, horizon_of(pools, tasks), gcs
 
 
 def jitter(x):
